@@ -208,6 +208,11 @@ def check_local_combination(res, c, where, f=None, comp=0, max_leaves=40, rng=No
         pts = sorted(set(interior))
         if len(pts) > 800 and rng is not None:
             pts = rng.sample(pts, 800)
+        if rng is not None and len(pts) >= 2 and rng.random() < 0.5:
+            # an evaluation list may contain a point several times (points collected leaf by leaf, concatenated point sets)
+            pts = pts + [pts[rng.randrange(len(pts))] for _ in range(rng.randint(1, 6))]
+            rng.shuffle(pts)
+            res.count("evaluation_list_with_repeated_points")
         vals = np.asarray(c(pts))
         exp = np.array([f.eval(p) for p in pts])
         nsch = sum(abs(g.coefficient) for g in c.scheme)
